@@ -108,6 +108,24 @@ class Report:
             if t not in self.trusted:
                 self.trusted.append(t)
 
+    def unlisted_failures(self):
+        """failed obligations / bounded cases of this (sub-)report that are not known findings of its property: used when a check depends on the
+        contract of another property's function and re-evaluates it (the listed findings stay with their own property)"""
+        known = load_known()
+        listed = {f['id']: f for f in known.get('findings', []) if f['property'] == self.prop}
+        out = []
+        for o in self.obs:
+            if o.status == FAILED:
+                f = listed.get(o.id)
+                if not (f is not None and self._same_finding(f, o)):
+                    out.append(o)
+        for b in self.bounded:
+            if not b.ok:
+                f = listed.get(b.id)
+                if not (f is not None and (f.get('witness') is None or f.get('witness') == b.input)):
+                    out.append(b)
+        return out
+
     # -- finishing
     def finish(self):
         known = load_known()
